@@ -48,6 +48,10 @@ type checkCtx struct {
 
 	sigCount   map[string]int // mismatches per signature (before known-finding classification)
 	lastOpts   map[string]string
+	confirmed  int
+	confirmSeq int
+	confirming bool
+	lastRecord *recordParams
 	violations []violation
 	knownLines []string
 	knownSeen  map[string]bool
@@ -365,7 +369,9 @@ func (c *checkCtx) vhRunExe(exe string, args ...string) {
 
 // replay runs the cases of file through family fam and returns (case, result) pairs.
 func (c *checkCtx) replay(fam, casesFile string, o replayOpts) (cases, results []map[string]J) {
-	c.lastOpts = o.opts // recorded in the replay file of a violation, so that --replay runs the case under the same options
+	if !c.confirming {
+		c.lastOpts = o.opts // recorded in the replay file of a violation, so that --replay runs the case under the same options
+	}
 	if o.workers == 0 {
 		o.workers = 14
 	}
@@ -479,9 +485,40 @@ func (c *checkCtx) judge(fam string, cases, results []map[string]J, nontrivialKe
 			infra("harness protocol problem in family %s: %v", fam, r)
 		default:
 			c.validated++
+			// A verdict comes from behaviour of the real code that can be reproduced: the first mismatches are run again, alone,
+			// with every watchdog of the harness ten times longer. What does not show again (a stall of a loaded machine taken
+			// for a hang, a worker killed from outside) is counted as not reproduced and is no violation.
+			if c.confirmed < 12 {
+				if !c.confirm(fam, cases[i]) {
+					c.validated--
+					c.discarded["mismatch not reproduced when the case ran again alone with 10x watchdogs (not judged)"]++
+					continue
+				}
+				c.confirmed++
+			}
 			c.mismatch(fam, cases[i], r)
 		}
 	}
+}
+
+// confirm runs one case again, alone, in a worker of its own, with the harness watchdogs scaled by ten.
+func (c *checkCtx) confirm(fam string, cs map[string]J) bool {
+	c.confirmSeq++
+	cf := filepath.Join(c.work, fmt.Sprintf("confirm%d.ndjson", c.confirmSeq))
+	cb, _ := json.Marshal(cs)
+	_ = os.WriteFile(cf, append(cb, '\n'), 0o644)
+	opts := map[string]string{"slow": "10"}
+	for k, v := range c.lastOpts {
+		opts[k] = v
+	}
+	c.confirming = true
+	_, res := c.replay(fam, cf, replayOpts{workers: 1, timeout: 200 * time.Second, opts: opts})
+	c.confirming = false
+	if len(res) != 1 {
+		return true
+	}
+	st, _ := res[0]["status"].(string)
+	return st != "ok" && st != "discard"
 }
 
 func sampleOf(fam string, cs, r map[string]J) J {
